@@ -110,7 +110,8 @@ class PythonDictFramework(ComputeFramework):
                 return [{key: data[key][i] for key in data.keys()} for i in range(length)]
             else:
                 # Single row dict: {"col1": 1, "col2": 2} -> [{"col1": 1, "col2": 2}]
-                return [data]
+                # (a new row dict: feature groups extend rows in place and must not write into the caller's object)
+                return [dict(data)]
 
         if isinstance(data, list):
             """Data is already in list format"""
